@@ -5,7 +5,7 @@ CONSTANTS
   DetailNames <- NamesAll
   Mismatches = {"m1", "m2"}
   Attrs = {"a_exist", "a_missing", "a_none"}
-  Fixtures = {"f_ok", "f_tb", "f_two", "f_bad", "f_cr", "f_gr"}
+  Fixtures = {"f_ok", "f_tb", "f_two", "f_bad", "f_cr", "f_gr", "f_nest", "f_nestbad", "f_nestcr"}
   MaxFaults = 1
   MaxSteps = 2
   MaxTotalSteps = 2
@@ -20,6 +20,7 @@ CONSTANTS
   GatherOf <- MCGatherOf
   CleanOf <- MCCleanOf
   FixtureSetUpFails <- MCFixtureSetUpFails
+  FixtureFailCount <- MCFixtureFailCount
   FixtureCleanKind <- MCFixtureCleanKind
   FixtureGatherRaises <- MCFixtureGatherRaises
   FixtureDetails <- MCFixtureDetails
